@@ -60,7 +60,18 @@ def make_region(dassh, n_ring, dims, nd, se2=False, wire_dir='clockwise',
     # the nesting the input means, for the geometric oracle
     rr._verif_ftf = [[asc[2 * i], asc[2 * i + 1]]
                      for i in range(len(asc) // 2)]
+    rr._verif_dims = {'n_ring': int(n_ring), 'pin_pitch': float(P),
+                      'pin_diameter': float(D), 'wire_diameter': float(Dw),
+                      'n_pin': 3 * (n_ring - 1) * n_ring + 1,
+                      'n_duct': len(asc) // 2}
     return rr
+
+
+def dim(rr, name):
+    """A dimension of the bundle as given to the constructor (for regions
+    made by make_region), else as the region records it."""
+    d = getattr(rr, '_verif_dims', None)
+    return d[name] if d is not None else getattr(rr, name)
 
 
 def truth_ftf(rr):
@@ -92,10 +103,10 @@ class Projection:
     def __init__(self, rr):
         self.rr = rr
         sc = rr.subchannel
-        self.N = N = rr.n_ring
-        self.ND = rr.n_duct
+        self.N = N = dim(rr, 'n_ring')
+        self.ND = dim(rr, 'n_duct')
         self.n = n = N - 1
-        P = rr.pin_pitch
+        P = dim(rr, 'pin_pitch')
         self.P = P
         tol = 1e-7 * P
         # ---- pins
@@ -234,7 +245,7 @@ def sym_flags(rr, proj):
     """Six-fold and mirror symmetry of the published centroid set."""
     xy = np.asarray(rr.subchannel.xy, dtype=float)
     typ = np.asarray(rr.subchannel.type)
-    tol = 1e-7 * rr.pin_pitch
+    tol = 1e-7 * dim(rr, 'pin_pitch')
     c, s = math.cos(math.pi / 3), math.sin(math.pi / 3)
     R = np.array([[c, -s], [s, c]])
     # mirror across the 60-degree axis
@@ -261,7 +272,7 @@ def bundle_events(rr):
     """Event list for Trace_Bundle from a constructed RoddedRegion."""
     sc = rr.subchannel
     proj = Projection(rr)
-    N, ND = rr.n_ring, rr.n_duct
+    N, ND = dim(rr, 'n_ring'), dim(rr, 'n_duct')
     nc = sc.n_sc['coolant']['total']
     ev = []
     typ = np.asarray(sc.type)
@@ -289,7 +300,7 @@ def bundle_events(rr):
     # which column the solver really reads for this region's wire direction
     padj = np.asarray(sc.pin_adj)
     nbp = np.asarray(rr.pin_lattice.adj)
-    for p in range(rr.n_pin):
+    for p in range(dim(rr, 'n_pin')):
         cells = [int(x) for x in padj[p] if x >= 0]
         fsum = float(sum(rr._q_p2sc[c] for c in cells))
         f12 = 12 if abs(fsum - 1.0) < 1e-9 else int(round(fsum * 12 + 1000)) - 1000
@@ -303,7 +314,7 @@ def bundle_events(rr):
     # ---- areas (quanta of the inner-hexagon area)
     ftf = truth_ftf(rr)
     hexa = S3 / 2 * ftf[0][0] ** 2
-    D, Dw = rr.pin_diameter, rr.wire_diameter
+    D, Dw = dim(rr, 'pin_diameter'), dim(rr, 'wire_diameter')
     ct = math.cos(rr.params['theta'])
     A = rr.params['area']
     cool = float(sum(A[t] for t in typ[:nc]))
@@ -326,8 +337,8 @@ def bundle_events(rr):
     pos = (np.all(np.asarray(A) > 0) and np.all(rr.area['duct_mw'] > 0)
            and (ND == 1 or np.all(rr.area['coolant_byp'] > 0)))
     ev.append({'e': 'Areas', 'cool': q(cool, scale),
-               'pins': q(rr.n_pin * math.pi * D * D / 4, scale),
-               'wire': q(rr.n_pin * math.pi * Dw * Dw / 4 / ct, scale),
+               'pins': q(dim(rr, 'n_pin') * math.pi * D * D / 4, scale),
+               'wire': q(dim(rr, 'n_pin') * math.pi * Dw * Dw / 4 / ct, scale),
                'hex': q(hexa, scale),
                'bundleArea': q(float(rr.bundle_params['area']), scale),
                'duct': duct, 'byp': byp, 'regionArea': region,
@@ -339,7 +350,7 @@ def bundle_events(rr):
                'nCorner': int(n_sc['coolant']['corner']),
                'nDuct': int(n_sc['duct']['total']),
                'nByp': int(n_sc['bypass']['total']),
-               'nTotal': int(n_sc['total']), 'nPin': int(rr.n_pin),
+               'nTotal': int(n_sc['total']), 'nPin': int(dim(rr, 'n_pin')),
                'sym6': s6, 'mirror': sm,
                'pinLattice': int(proj.pin_ok)})
     return ev, proj
